@@ -440,6 +440,11 @@ class CallMixin:
             return [(st, vbool(z3.ForAll([x], z3.Implies(z3.Select(args[0].t[0], x), z3.Select(args[1].t[0], x)))))]
         if name == "seq_eq":
             return [(st, vbool(self.equal(args[0], args[1], node)))]
+        if name == "same":
+            # representation equality (every component term equal): stronger than element-wise equality and free for the
+            # solver - meant for invariants saying "this container has not been touched"
+            a_, b_ = args[0], self.coerce(args[1], args[0].sort, node)
+            return [(st, vbool(z3.And(*[x == y for x, y in zip(a_.t, b_.t)])))]
         if name == "distinct":
             return [(st, vbool(z3.Distinct(*[a.z for a in args])))]
         sf = w.specfns[name]
